@@ -215,6 +215,53 @@ def _repair(spec):
                 nd["delay"] = max(nd["delay"], nd["dist"][1])
 
 
+NUM_TOKENS = 10  # rex/asynchronous.py `_start`: how many output timestamps a node simulates ahead of its executed steps
+
+
+def expected_phases(spec) -> List[float]:
+    """Longest expected-delay path into each node over non-skipped connections (a default expected delay is bounded by the maximum)."""
+    def ed(x):
+        return x["delay"] if x.get("delay") is not None else dist_max(x["dist"])
+
+    memo: Dict[int, float] = {}
+
+    def ph(i, stack=()):
+        if i in memo:
+            return memo[i]
+        if i in stack:
+            return 0.0
+        best = 0.0
+        for c in spec["conns"]:
+            if c["dst"] == i and not c["skip"]:
+                best = max(best, ph(c["src"], stack + (i,)) + ed(spec["nodes"][c["src"]]) + ed(c))
+        memo[i] = best
+        return best
+
+    return [ph(i) for i in range(len(spec["nodes"]))]
+
+
+def _lookahead_excess(spec) -> Optional[str]:
+    """Rule 9 (documented limitation of the runtime, NOTE in `_AsyncNodeWrapper._start`): a node u simulates its output timestamps only
+    NUM_TOKENS steps ahead of the steps it has executed. If u has a non-blocking input from v and v's step times depend, through blocking
+    connections, on u's output timestamps, u's step k can start only once v has announced an output later than that step, which needs
+    u's timestamps up to about v's phase: more than the look-ahead when rate_u * (phase_v - phase_u) approaches NUM_TOKENS - then nothing
+    ever starts. Bound used: rate_u * (phase_v - phase_u) <= NUM_TOKENS - 4 (one tick each for index->count, v's period, overrun lag, rounding)."""
+    n = len(spec["nodes"])
+    B = nx.DiGraph()
+    B.add_nodes_from(range(n))
+    B.add_edges_from((c["src"], c["dst"]) for c in spec["conns"] if c["blocking"])
+    ph = None
+    for c in spec["conns"]:
+        if c["blocking"]:
+            continue
+        u, v = c["dst"], c["src"]
+        if u != v and nx.has_path(B, u, v):
+            ph = ph or expected_phases(spec)
+            if spec["nodes"][u]["rate"] * (ph[v] - ph[u]) > NUM_TOKENS - 4 + 1e-9:
+                return "rule9: look-ahead of num_tokens output timestamps too short for a blocking path back into a non-blocking input"
+    return None
+
+
 def in_S(spec) -> Optional[str]:
     """Static membership test of the supported class S (DESIGN 3.1). Returns None if supported, else the reason."""
     n = len(spec["nodes"])
@@ -260,6 +307,9 @@ def in_S(spec) -> Optional[str]:
     for scc in _zero_latency_sccs(spec):
         if _instantaneous(spec, scc):
             return "rule7: zero-latency cycle that is instantaneous in time (advance node or blocking connection on it)"
+    r9 = _lookahead_excess(spec)
+    if r9 is not None:
+        return r9
     if bool(spec.get("open_loop")) != (len(reachable_from_sup(spec)) < n):
         return "open_loop flag wrong"
     seen = set()
